@@ -327,6 +327,84 @@ impl Sub for Chain {
 }
 
 // ---------------------------------------------------------------------------
+// backgrounds counted from sequences
+// ---------------------------------------------------------------------------
+
+#[derive(Clone, Debug, Serialize, Deserialize)]
+pub struct BgSeqCase {
+    pub abc: Abc,
+    pub seqs: Vec<SeqSpec>,
+    pub unknown: bool,
+    /// count on the striped form of the sequences (32 columns, with look-ahead rows) instead of the linear one
+    pub striped: bool,
+}
+
+pub struct BackgroundFromSequences;
+
+impl Sub for BackgroundFromSequences {
+    type Case = BgSeqCase;
+    fn name(&self) -> &'static str {
+        "background-from-sequences"
+    }
+    fn rule(&self) -> &'static str {
+        "1..4 sequences (L 0..200, wildcards) counted by Background::from_sequence / from_sequences on the linear or the striped (and wrap-configured) form, with and without the wildcard (`unknown`): frequencies = symbol counts / total exactly (same f32 division), InvalidData iff the total is zero; non-trivial = a wildcard is present and >= 2 distinct symbols"
+    }
+    fn cases(&self, tier: Tier) -> u64 {
+        tier.pick(20_000, 400_000)
+    }
+    fn strategy(&self, _tier: Tier) -> BoxedStrategy<BgSeqCase> {
+        abc_strategy()
+            .prop_flat_map(|abc| (Just(abc), proptest::collection::vec(seq_strategy(abc.k(), (0usize..=200).boxed()), 1..=4), any::<bool>(), any::<bool>()))
+            .prop_map(|(abc, seqs, unknown, striped)| BgSeqCase { abc, seqs, unknown, striped })
+            .boxed()
+    }
+    fn check(&self, case: &BgSeqCase, _cx: &Cx) -> Verdict {
+        use lightmotif::num::U32;
+        use lightmotif::pli::{Pipeline, Stripe};
+        use lightmotif::seq::StripedSequence;
+        let k = case.abc.k();
+        let idx: Vec<Vec<u8>> = case.seqs.iter().map(|s| s.expand(k)).collect();
+        let mut counts = vec![0usize; k];
+        for s in &idx {
+            for &x in s {
+                if case.unknown || (x as usize) != k - 1 {
+                    counts[x as usize] += 1;
+                }
+            }
+        }
+        let total: usize = counts.iter().sum();
+        let mut info = CaseInfo::new();
+        info.nontrivial = idx.iter().flatten().any(|&x| x as usize == k - 1) && counts.iter().filter(|&&c| c > 0).count() >= 2;
+        info.class_if(case.striped, "striped-form");
+        info.class_if(case.unknown, "wildcard-counted");
+        info.class_if(total == 0, "zero-total(rejection)");
+        let f = with_abc!(case.abc, A => {
+            let res = if case.striped {
+                let st: Vec<StripedSequence<A, U32>> = idx.iter().map(|s| { let mut x: StripedSequence<A, U32> = Pipeline::<A, _>::generic().stripe(&syms::<A>(s)); x.configure_wrap(s.len() % 7); x }).collect();
+                if st.len() == 1 { Background::<A>::from_sequence(st.into_iter().next().unwrap(), case.unknown) } else { Background::<A>::from_sequences(st, case.unknown) }
+            } else {
+                let en: Vec<EncodedSequence<A>> = idx.iter().map(|s| EncodedSequence::new(syms::<A>(s))).collect();
+                if en.len() == 1 { Background::<A>::from_sequence(en.into_iter().next().unwrap(), case.unknown) } else { Background::<A>::from_sequences(en, case.unknown) }
+            };
+            match res {
+                Err(_) => if total == 0 { None } else { Some(Failure::new("from_sequences:rejects-valid", format!("counts {:?} rejected", counts))) },
+                Ok(b) => {
+                    if total == 0 { Some(Failure::new("from_sequences:accepts-zero", "no symbol counted but a background was returned".to_string())) }
+                    else {
+                        (0..k).find(|&j| b.frequencies()[j] != counts[j] as f32 / total as f32).map(|j| Failure::new(
+                            "from_sequences:value", format!("symbol {}: frequency {} but counts {:?} give {}/{} (unknown={}, striped={})", j, b.frequencies()[j], counts, counts[j], total, case.unknown, case.striped)))
+                    }
+                }
+            }
+        });
+        match f {
+            Some(f) => Verdict::Fail(f),
+            None => Verdict::Pass(info),
+        }
+    }
+}
+
+// ---------------------------------------------------------------------------
 // rejections
 // ---------------------------------------------------------------------------
 
@@ -476,7 +554,7 @@ impl Sub for Rejections {
 pub fn property() -> Property {
     Property {
         id: "C09",
-        subs: vec![Box::new(FromSequences), Box::new(Chain), Box::new(Rejections)],
+        subs: vec![Box::new(FromSequences), Box::new(Chain), Box::new(BackgroundFromSequences), Box::new(Rejections)],
         assumptions: vec![
             "a row whose counts + pseudocounts total zero has no defined frequency and is excluded (counted as class zero-row-excluded)",
             "definitions are evaluated in f64 and compared with relative tolerance 1e-5 (2e-5 after a logarithm)",
